@@ -57,3 +57,12 @@ func (s *Service) VerifSessions() []VerifSession {
 
 	return res
 }
+
+// VerifClearSessions removes every in-progress generation.
+func (s *Service) VerifClearSessions() {
+	s.generationsMu.Lock()
+	defer s.generationsMu.Unlock()
+	for k := range s.generations {
+		delete(s.generations, k)
+	}
+}
